@@ -716,12 +716,15 @@ func (f *Frame) loopHeader(li *loopInfo) {
 			vc.assume(fmt.Sprintf("(forall ((x Int)) (! (=> (select %s x) (select %s x)) :pattern ((select %s x))))", pre, cur, pre))
 		}
 	}
-	// implicit frame invariant: heap cells not in the function's `modifies` stay unchanged on objects alive at entry
+	// implicit frame invariant (every loop, with or without a `loop` clause, at every inlining depth): heap cells that
+	// are not in the `modifies` of the function under verification stay unchanged on the objects that were alive when
+	// this frame was entered (objects the frame allocated itself may be written). Obligation on loop entry and at every
+	// latch, assumption at the header.
 	li.frameKeys = nil
-	if f.depth == 0 {
+	{
 		declared := map[string]bool{}
-		if f.con != nil {
-			for _, m := range f.con.Modifies {
+		if vc.con != nil {
+			for _, m := range vc.con.Modifies {
 				declared[vc.P.modKey(m)] = true
 			}
 		}
@@ -732,7 +735,7 @@ func (f *Frame) loopHeader(li *loopInfo) {
 				srt, known = "(Array Int Int)", true
 				vc.cellSort[k] = srt
 			}
-			if !known || declared[k] || !(strings.HasPrefix(k, "H:") || strings.HasPrefix(k, "D:") || strings.HasPrefix(k, "M:") || k == "ghost:iterpos") || !strings.HasPrefix(srt, "(Array Int ") {
+			if !known || declared[k] || (vc.con != nil && vc.con.ModAll) || !(strings.HasPrefix(k, "H:") || strings.HasPrefix(k, "D:") || strings.HasPrefix(k, "M:") || k == "ghost:iterpos") || !strings.HasPrefix(srt, "(Array Int ") {
 				continue
 			}
 			entryV := f.getCell(f.entry, k, srt)
@@ -740,7 +743,7 @@ func (f *Frame) loopHeader(li *loopInfo) {
 			pre := f.getCell(preLoop, k, srt)
 			if pre != entryV {
 				goal := fmt.Sprintf("(forall ((fr Int)) (=> (select %s fr) (= (select %s fr) (select %s fr))))", aliveEntry, pre, entryV)
-				vc.addObl(f, "frame", fmt.Sprintf("loop[%s].frame[%s].entry", loopName(li), k), goal, "implicit frame invariant", li.header.Instrs[0].Pos())
+				vc.addObl(f, "frame", fmt.Sprintf("loop[%s].frame[%s].entry", f.loopLabel(li), k), goal, "implicit frame invariant", li.header.Instrs[0].Pos())
 			}
 			cur := f.getCell(f.cur, k, srt)
 			vc.assume(implies(f.curReach, fmt.Sprintf("(forall ((fr Int)) (! (=> (select %s fr) (= (select %s fr) (select %s fr))) :pattern ((select %s fr))))", aliveEntry, cur, entryV, cur)))
@@ -777,15 +780,17 @@ func clauseName(c Clause, i int) string {
 }
 
 func (f *Frame) loopLatch(li *loopInfo, latch *ssa.BasicBlock) {
-	if li == nil || li.spec == nil {
+	if li == nil {
 		return
 	}
 	// reach of the back edge
 	save := f.curReach
 	f.curReach = f.edgeCond(latch, li.header)
-	for i, inv := range li.spec.Invs {
-		t := f.evalClause(inv, f.cur, f.entry, nil, li)
-		f.vc.addObl(f, "inv-preserved", fmt.Sprintf("loop[%s].inv[%s].preserved@b%d", li.spec.Key, clauseName(inv, i), latch.Index), t, inv.Src, li.header.Instrs[0].Pos())
+	if li.spec != nil {
+		for i, inv := range li.spec.Invs {
+			t := f.evalClause(inv, f.cur, f.entry, nil, li)
+			f.vc.addObl(f, "inv-preserved", fmt.Sprintf("loop[%s].inv[%s].preserved@b%d", li.spec.Key, clauseName(inv, i), latch.Index), t, inv.Src, li.header.Instrs[0].Pos())
+		}
 	}
 	if len(li.frameKeys) > 0 {
 		aliveEntry := f.getCell(f.entry, "ghost:alive", aliveSort)
@@ -794,10 +799,18 @@ func (f *Frame) loopLatch(li *loopInfo, latch *ssa.BasicBlock) {
 			entryV := f.getCell(f.entry, k, srt)
 			cur := f.getCell(f.cur, k, srt)
 			goal := fmt.Sprintf("(forall ((fr Int)) (=> (select %s fr) (= (select %s fr) (select %s fr))))", aliveEntry, cur, entryV)
-			f.vc.addObl(f, "frame", fmt.Sprintf("loop[%s].frame[%s].preserved@b%d", loopName(li), k, latch.Index), goal, "implicit frame invariant", li.header.Instrs[0].Pos())
+			f.vc.addObl(f, "frame", fmt.Sprintf("loop[%s].frame[%s].preserved@b%d", f.loopLabel(li), k, latch.Index), goal, "implicit frame invariant", li.header.Instrs[0].Pos())
 		}
 	}
 	f.curReach = save
+}
+
+// loopLabel names a loop in obligation labels; loops of inlined functions carry the function's name.
+func (f *Frame) loopLabel(li *loopInfo) string {
+	if f.depth > 0 {
+		return loopName(li) + "@" + f.vc.P.fnKey(f.fn)
+	}
+	return loopName(li)
 }
 
 func loopName(li *loopInfo) string {
